@@ -1,2 +1,50 @@
-(* C18 - the validator accepts exactly the well-formed basis data (theorems added as they are proved) *)
-From BSE Require Import Model.Val Model.Validator.
+(* C18 - the validator accepts exactly the well-formed basis data.
+   valid_shell / valid_pots / shell_shape (Proofs/ValidatorDefs.v) are the documented rules written declaratively;
+   schema_complete etc. are Gen/GenSchema.v = schema/*.json as they are now. *)
+From BSE Require Import Model.Val Model.Num Model.Basis Model.Schema Gen.GenSchema Model.Validator.
+From BSE Require Import Proofs.ValidatorDefs Proofs.ValidatorSpec.
+
+(* the semantic rules for a shell are accepted exactly when every documented rule holds (both directions) *)
+Theorem validate_shell_iff : validate_shell_iff_stmt.
+Proof. exact ValidatorSpec.validate_shell_iff. Qed.
+Print Assumptions validate_shell_iff.
+
+Theorem validate_shell_errors : validate_shell_errors_stmt.
+Proof. exact ValidatorSpec.validate_shell_errors. Qed.
+Print Assumptions validate_shell_errors.
+
+(* same for the ECP potentials of an element *)
+Theorem validate_pots_iff : validate_pots_iff_stmt.
+Proof. exact ValidatorSpec.validate_pots_iff. Qed.
+Print Assumptions validate_pots_iff.
+
+Theorem validate_element_sound : validate_element_sound_stmt.
+Proof. exact ValidatorSpec.validate_element_sound. Qed.
+Print Assumptions validate_element_sound.
+
+Theorem validate_complete_sound : validate_complete_sound_stmt.
+Proof. exact ValidatorSpec.validate_complete_sound. Qed.
+Print Assumptions validate_complete_sound.
+
+(* the electron-shell schema (the same term in the complete, minimal and component schemas) accepts exactly shell_shape *)
+Theorem shell_schema_present : shell_schema_present_stmt.
+Proof. exact ValidatorSpec.shell_schema_present. Qed.
+Print Assumptions shell_schema_present.
+
+Theorem shell_schema_iff : shell_schema_iff_stmt.
+Proof. exact ValidatorSpec.shell_schema_iff. Qed.
+Print Assumptions shell_schema_iff.
+
+Theorem complete_top_level_keys : complete_top_stmt.
+Proof. exact ValidatorSpec.complete_top. Qed.
+Print Assumptions complete_top_level_keys.
+
+Theorem complete_element_keys : complete_element_keys_stmt.
+Proof. exact ValidatorSpec.complete_element_keys. Qed.
+Print Assumptions complete_element_keys.
+
+(* non-vacuity: a concrete shell is valid, and a single-rule mutation of it is rejected *)
+Definition good : sshell := mkShell "gto_spherical" "" [2%Z] ["1.5"; "0.3"] [["0.4"; "0.6"]; ["0.0"; "1.0"]].
+Definition bad_dup_exponent : sshell := mkShell "gto_spherical" "" [2%Z] ["1.5"; "1.50"] [["0.4"; "0.6"]; ["0.0"; "1.0"]].
+Example demo_accept_reject : validate_shell good = inr tt /\ validate_shell bad_dup_exponent = inl ERuntime.
+Proof. vm_compute. split; reflexivity. Qed.
